@@ -168,7 +168,8 @@ def run_case(c):
     if phs == 0:
         return {"id": c["id"], "ok": False, "kind": "lost", "why": "even an inert body (the placeholder word) does not reach the tree in this context"}
     # absolute part of the oracle: with an inert body the tag syntax itself never reaches the tree
-    leak = re.search(r"</?%s\b[^\"]{0,40}" % re.escape(c["tag"]), json.dumps(tb), re.I)
+    # (skipped on pages where ANOTHER region legitimately delivers such text verbatim, e.g. <nowiki><math>x</math></nowiki>)
+    leak = None if c.get("noleak") else re.search(r"</?%s\b[^\"]{0,40}" % re.escape(c["tag"]), json.dumps(tb), re.I)
     if leak:
         return {"id": c["id"], "ok": False, "kind": "mismatch", "why": "tag syntax reaches the tree even with an inert body: %r" % leak.group(0), "leaf": []}
     why = compare(ta, tb, c["ph"], c["tag"], c["body"], "", found)
